@@ -28,6 +28,9 @@ Case = (prog ops).
   expr : (0 z) | (1 j) get | (2 j) get_untracked | (3 e) untrack | (4 a b) + | (5 a b) < | (6 c a b) if | (7 s e) set
          | (8 e j) selector e .selected(key of its j-th trigger)
          | (9 k) create the node of template k (only as a prefix of a body: (4 (9 k) rest)); value 0
+         | (11) the effect body hands a clone of Owner::current() to the outside (the harness keeps it until the case ends, as
+           one does to pause / resume the effect later): value 0, no event; a handle that is still around must not keep
+           anything under a disposed owner running
          | (10 j) Owner::on_cleanup(move || { signal_j.get(); }) in an effect body: value 0, no event (the model reads it as
            the constant 0): what a cleanup callback reads is never a reason to run
   op   : (0 s v) set | (1 s) notify | (2 n) read | (3 k) poll k-th ready | (4) run to idle
@@ -381,6 +384,9 @@ def valid_refs(prog, i, e, scope=frozenset()):
         return 0 <= e[1] < i and prog[e[1]][0] == SEL and 0 <= e[2] < len(prog[e[1]][5])
     if k == 9:
         return False       # only as the prefix of a body
+    if k == 11:
+        nd = prog[i][1] if prog[i][0] == TPL else prog[i]
+        return nd[0] == EFF and nd[1] in (0, 1, 2, 3, 4)
     if k == 10:
         nd = prog[i][1] if prog[i][0] == TPL else prog[i]
         return (nd[0] == EFF and nd[1] in (0, 1, 2, 3, 4) and 0 <= e[1] < i and prog[e[1]][0] == SIG
@@ -437,6 +443,8 @@ def valid_expr(e, depth=0):
         return len(e) == 3 and isinstance(e[1], int) and isinstance(e[2], int)
     if k in (9, 10):
         return len(e) == 2 and isinstance(e[1], int)
+    if k == 11:
+        return len(e) == 1
     return False
 
 
@@ -868,7 +876,7 @@ def gen_deep_case(rng, depth, n_diamonds=0, with_effect=False):
     return [prog, ops]
 
 
-def gen_dynamic_program(rng, n_creators, eff_kinds=(0, 0, 1, 2, 3, 4), with_effects=True, p_untr=0.03, depth2=0.35):
+def gen_dynamic_program(rng, n_creators, eff_kinds=(0, 0, 1, 2, 3, 4), with_effects=True, p_untr=0.03, depth2=0.35, keep_owner=0.0):
     """nodes created at run time: creators (memos / effects) whose bodies begin with (9 k) for the templates declared
     just before them; a template effect may itself be a creator (nesting of depth 2)"""
     prog = []
@@ -909,6 +917,9 @@ def gen_dynamic_program(rng, n_creators, eff_kinds=(0, 0, 1, 2, 3, 4), with_effe
         rest = body_over(plain() + inherited + mine, rng.choice([1, 2]))
         if mine and rng.random() < 0.85:
             rest = [4, [1, rng.choice(mine)], rest]
+        if is_eff and rng.random() < keep_owner:
+            # the effect hands out its owner (Owner::current()), before or after it creates what lives under it
+            rest = [4, [11], rest]
         body = rest
         for k in reversed(created):
             body = [4, [9, k], body]
@@ -1451,7 +1462,7 @@ class Walker:
         if k == 9:
             self.create(who, e[1])
             return 0
-        if k == 10:
+        if k in (10, 11):
             return 0
         if k == 1:
             return self.read(who, self.resolve(e[1]), True, untr)
@@ -1660,7 +1671,7 @@ class Truth:
         k = e[0]
         if k == 0:
             return e[1]
-        if k == 10:
+        if k in (10, 11):
             return 0
         if k == 9:
             if st is not None:
@@ -1742,7 +1753,7 @@ class Truth:
         k = e[0]
         if k == 0:
             return e[1]
-        if k == 10:
+        if k in (10, 11):
             return 0
         if k in (1, 2):
             nd = self.w.prog[e[1]]
@@ -2168,6 +2179,8 @@ def show_expr(e):
         return "create(n%d)" % e[1]
     if k == 10:
         return "on_cleanup(|| n%d.get())" % e[1]
+    if k == 11:
+        return "keep(Owner::current())"
     return "?"
 
 
